@@ -1,47 +1,74 @@
 --------------------------------- MODULE ConnIso ---------------------------------
 (* Concurrent socket connections served by `_serve_socket_threaded` (vgi_rpc/rpc/_transport.py): one accept loop, one
    thread per accepted connection, an optional semaphore of max_connections permits, the real RpcServer.serve loop per
-   connection (lock-step request/response), clients that run a call script and then close.
+   connection (lock-step request/response, with its per-connection bookkeeping), clients that run a call script and
+   then close.
 
    Granularity = one scheduler step of one real thread (it runs from its park point to the next):
      loop   start -> accept (parked in accept(): enabled iff a connection is pending or the listener was closed)
             accept -> acq1 (conn.settimeout, about to take the state lock) -> acq2 (conn_count += 1; Thread created)
             -> accept (active.add; t.start())            closed: accept -> acqF -> done (join)
      h[c]   start -> sem (only with max_connections; parked before semaphore.acquire, enabled iff a permit is free)
-            -> [transport built = the connection starts being served] read a request:
-               io  (parked in recv: enabled iff the client has written something or closed)
+            -> [transport built = the connection starts being served] read what the client has written:
+               io  (parked in recv: enabled iff the client has written something more or closed)
                m   (parked inside the method body / process(); `pt`/`xe` = open + first turn park twice)
             EOF -> [transport.close = stops being served; semaphore.release] fin (about to take the state lock) -> done
-     cl[c]  start -> connected (connect() done: the connection sits in the kernel backlog) -> wait (request written,
-            parked in recv until the response is there) ... -> done (transport closed)
+     cl[c]  start -> connected (connect() done: the connection sits in the kernel backlog) -> wait (something written,
+            parked in recv until a response is there) | opened (a header-less stream was opened, nothing read yet)
+            ... -> done (transport closed)
    The state lock is never held across a park point, so it is free at every step boundary and is not a variable.
 
+   Channels are FIFOs of framing items.  c2s: [t |-> "R", i] the request stream of op number i (for t / e / c inside an
+   open stream: that turn's input), "SP" the schema + first batch of a stray input stream, "SE" its EOS, "S0" an empty
+   stray input stream.  s2c: one item per response, already in the client's vocabulary <<kind, value>>.
+
+   Ops: u | pt (open producer + first tick) | t | xe (open exchange + first exchange) | e | c (close) |
+        pr / xr: open a header-less producer / exchange whose init raises.  The call is REJECTED before its input stream
+        opens, but the client learns that only at its next t / e / c, whose input stream therefore arrives where the
+        server expects a request.  RpcServer.serve keeps, PER CONNECTION, the mark "the next stream may be such a stray
+        input" (_ConnectionState.stray_input_possible): set by the rejection, read and cleared at the entry of every
+        serve_one; a stream without a method key is swallowed silently iff the mark was set, otherwise it is answered
+        with an error stream -- which shifts every later response of that connection by one call.
+
    Service (per connection tag = 101 * c):  u -> tag*1000 + i;  producer: k-th output tag*1000 + k;
-   exchange: running sum of the inputs (input of op number i is i).  Stream state lives in the per-call state
-   object; SharedState = TRUE is the design error "one state for all connections" (kept to show the clause bites). *)
+   exchange: running sum of the inputs (input of op number i is i); a rejected open answers <<"e", tag>>.
+   SharedState = TRUE is the design error "one state for all connections" (stream state AND the stray mark in one
+   shared cell), kept to show that the clauses bite.                                                                  *)
 EXTENDS Integers, Sequences, FiniteSets, TLC
 
 CONSTANTS Worlds,          \* set of [s |-> function conn -> sequence of ops, mx |-> max_connections]; mx = 0 stands
                            \* for None (no semaphore), otherwise the number of permits
           SharedState      \* design error switch (FALSE = intended)
 
-VARIABLES script, mx, loop, acc, backlog, closed, cl, ip, req, rsp, rspv, eof, h, ml, permits, serving, sk, sa, obs
-vars == <<script, mx, loop, acc, backlog, closed, cl, ip, req, rsp, rspv, eof, h, ml, permits, serving, sk, sa, obs>>
+VARIABLES script, mx, loop, acc, backlog, closed, cl, ip, pend, c2s, s2c, eof, h, ml, cur, mid, hs, flag, permits, serving,
+          sk, sa, obs
+vars == <<script, mx, loop, acc, backlog, closed, cl, ip, pend, c2s, s2c, eof, h, ml, cur, mid, hs, flag, permits, serving,
+          sk, sa, obs>>
 
 Conns == DOMAIN script
 Tag(c) == 101 * c
 Slot(c) == IF SharedState THEN 0 ELSE c
 NM(op) == CASE op \in {"pt", "xe"} -> 2 [] op = "c" -> 0 [] OTHER -> 1      \* method-body park points of one client op
+Rejected(op) == op \in {"pr", "xr"}
+Enters(op) == op \in {"u", "pt", "xe", "pr", "xr"}                          \* ops that arrive at a serve_one entry
+Rq(i) == [t |-> "R", i |-> i]
+SP == [t |-> "SP", i |-> 0]
+SE == [t |-> "SE", i |-> 0]
+S0 == [t |-> "S0", i |-> 0]
+AfterReject(c, i) == i > 1 /\ Rejected(script[c][i - 1])
 
-Init == /\ \E w \in Worlds : script = w.s /\ mx = w.mx
+InitWith(s, m) ==
+        /\ script = s /\ mx = m
         /\ loop = "start" /\ acc = 0 /\ backlog = <<>> /\ closed = FALSE
-        /\ cl = [c \in DOMAIN script |-> "start"] /\ ip = [c \in DOMAIN script |-> 0]
-        /\ req = [c \in DOMAIN script |-> FALSE] /\ rsp = [c \in DOMAIN script |-> FALSE]
-        /\ rspv = [c \in DOMAIN script |-> <<>>] /\ eof = [c \in DOMAIN script |-> FALSE]
-        /\ h = [c \in DOMAIN script |-> "none"] /\ ml = [c \in DOMAIN script |-> 0]
-        /\ permits = mx /\ serving = {}
-        /\ sk = [s \in {0} \cup DOMAIN script |-> 0] /\ sa = [s \in {0} \cup DOMAIN script |-> 0]
-        /\ obs = [c \in DOMAIN script |-> <<>>]
+        /\ cl = [c \in DOMAIN s |-> "start"] /\ ip = [c \in DOMAIN s |-> 0] /\ pend = [c \in DOMAIN s |-> "n"]
+        /\ c2s = [c \in DOMAIN s |-> <<>>] /\ s2c = [c \in DOMAIN s |-> <<>>] /\ eof = [c \in DOMAIN s |-> FALSE]
+        /\ h = [c \in DOMAIN s |-> "none"] /\ ml = [c \in DOMAIN s |-> 0] /\ cur = [c \in DOMAIN s |-> 0]
+        /\ mid = [c \in DOMAIN s |-> FALSE] /\ hs = [c \in DOMAIN s |-> FALSE]
+        /\ flag = [x \in {0} \cup DOMAIN s |-> FALSE]
+        /\ permits = m /\ serving = {}
+        /\ sk = [x \in {0} \cup DOMAIN s |-> 0] /\ sa = [x \in {0} \cup DOMAIN s |-> 0]
+        /\ obs = [c \in DOMAIN s |-> <<>>]
+Init == \E w \in Worlds : InitWith(w.s, w.mx)
 
 \* ------------------------------------------------------------------------------ accept loop
 L == /\ CASE loop = "start" -> loop' = "accept" /\ UNCHANGED <<acc, backlog, h>>
@@ -52,80 +79,111 @@ L == /\ CASE loop = "start" -> loop' = "accept" /\ UNCHANGED <<acc, backlog, h>>
           [] loop = "acq2" -> loop' = "accept" /\ h' = [h EXCEPT ![acc] = "start"] /\ UNCHANGED <<acc, backlog>>
           [] loop = "acqF" -> loop' = "done" /\ UNCHANGED <<acc, backlog, h>>
           [] OTHER -> FALSE
-     /\ UNCHANGED <<script, mx, closed, cl, ip, req, rsp, rspv, eof, ml, permits, serving, sk, sa, obs>>
+     /\ UNCHANGED <<script, mx, closed, cl, ip, pend, c2s, s2c, eof, ml, cur, mid, hs, flag, permits, serving, sk, sa, obs>>
 LEnabled == \/ loop \in {"start", "acq1", "acq2", "acqF"}
             \/ loop = "accept" /\ (closed \/ backlog # <<>>)
 
 \* ------------------------------------------------------------------------------ client of connection c
-Item(c) == rspv[c]
+\* Issue ops until the client parks or its script ends.  st = [q (c2s), r (s2c), o (obs), i (ip), cl, pend, eof].
+\* After a rejected open the session's first t / e / c writes its input stream and then reads the *rejection*; if that
+\* is already there the client does not park at all (t / e: RpcError -> close() writes the EOS) and goes on.
+RECURSIVE CIssue(_, _)
+CIssue(c, st) ==
+  IF st.i = Len(script[c]) THEN [st EXCEPT !.cl = "done", !.eof = TRUE]              \* close the transport
+  ELSE LET i == st.i + 1  op == script[c][i] IN
+       IF Rejected(op) THEN [st EXCEPT !.i = i, !.q = Append(@, Rq(i)), !.cl = "opened"]
+       ELSE IF AfterReject(c, i) /\ op \in {"t", "e", "c"}
+       THEN LET q1 == Append(st.q, IF op = "c" THEN S0 ELSE SP) IN
+            IF st.r # <<>>
+            THEN CIssue(c, [st EXCEPT !.i = i, !.q = IF op = "c" THEN q1 ELSE Append(q1, SE), !.r = Tail(@),
+                                      !.o = Append(@, IF op = "c" THEN <<"c", 0>> ELSE Head(st.r))])
+            ELSE [st EXCEPT !.i = i, !.q = q1, !.cl = "wait", !.pend = IF op = "c" THEN "d" ELSE "s"]
+       ELSE [st EXCEPT !.i = i, !.q = Append(@, Rq(i)), !.cl = "wait", !.pend = IF op = "c" THEN "d" ELSE "n"]
+CState(c) == [q |-> c2s[c], r |-> s2c[c], o |-> obs[c], i |-> ip[c], cl |-> cl[c], pend |-> pend[c], eof |-> eof[c]]
+CSet(c, st) == /\ c2s' = [c2s EXCEPT ![c] = st.q] /\ s2c' = [s2c EXCEPT ![c] = st.r] /\ obs' = [obs EXCEPT ![c] = st.o]
+               /\ ip' = [ip EXCEPT ![c] = st.i] /\ cl' = [cl EXCEPT ![c] = st.cl] /\ pend' = [pend EXCEPT ![c] = st.pend]
+               /\ eof' = [eof EXCEPT ![c] = st.eof]
 C(c) ==
   /\ c \in Conns
   /\ CASE cl[c] = "start" ->          \* connect(): the kernel queues the connection
             /\ cl' = [cl EXCEPT ![c] = "connected"] /\ backlog' = Append(backlog, c)
-            /\ UNCHANGED <<ip, req, rsp, eof, obs>>
-       [] cl[c] = "connected" \/ (cl[c] = "wait" /\ rsp[c]) ->
-            /\ obs' = IF cl[c] = "wait" THEN [obs EXCEPT ![c] = Append(@, Item(c))] ELSE obs
-            /\ rsp' = [rsp EXCEPT ![c] = FALSE]
-            /\ IF ip[c] < Len(script[c])
-               THEN /\ ip' = [ip EXCEPT ![c] = @ + 1] /\ req' = [req EXCEPT ![c] = TRUE]     \* write the next call, wait
-                    /\ cl' = [cl EXCEPT ![c] = "wait"] /\ UNCHANGED eof
-               ELSE /\ eof' = [eof EXCEPT ![c] = TRUE] /\ cl' = [cl EXCEPT ![c] = "done"]    \* close the transport
-                    /\ UNCHANGED <<ip, req>>
-            /\ UNCHANGED backlog
+            /\ UNCHANGED <<ip, pend, c2s, s2c, eof, obs>>
+       [] cl[c] \in {"connected", "opened"} -> CSet(c, CIssue(c, CState(c))) /\ UNCHANGED backlog
+       [] cl[c] = "wait" /\ s2c[c] # <<>> ->
+            \* the awaited response: close() reports nothing ("d"); "s": the rejection, then close() sends the stray EOS
+            LET st == CState(c)
+                st1 == [st EXCEPT !.r = Tail(@), !.o = Append(@, IF st.pend = "d" THEN <<"c", 0>> ELSE Head(st.r)),
+                                  !.q = IF st.pend = "s" THEN Append(@, SE) ELSE @] IN
+            CSet(c, CIssue(c, st1)) /\ UNCHANGED backlog
        [] OTHER -> FALSE
-  /\ UNCHANGED <<script, mx, loop, acc, closed, rspv, h, ml, permits, serving, sk, sa>>
-CEnabled(c) == cl[c] \in {"start", "connected"} \/ (cl[c] = "wait" /\ rsp[c])
+  /\ UNCHANGED <<script, mx, loop, acc, closed, h, ml, cur, mid, hs, flag, permits, serving, sk, sa>>
+CEnabled(c) == cl[c] \in {"start", "connected", "opened"} \/ (cl[c] = "wait" /\ s2c[c] # <<>>)
 
 \* ------------------------------------------------------------------------------ per-connection server thread
-Op(c) == script[c][ip[c]]
-\* RpcServer.serve: read the next request; park in recv if nothing is there; EOF ends the connection
-ReadOrPark(c, rq, sv, pm) ==
-  IF rq[c]
-  THEN /\ req' = [rq EXCEPT ![c] = FALSE]
-       /\ IF NM(Op(c)) = 0
-          THEN \* close(): input EOS read, output EOS written, back to reading a request
-               /\ rsp' = [rsp EXCEPT ![c] = TRUE] /\ rspv' = [rspv EXCEPT ![c] = <<"c", 0>>]
-               /\ h' = [h EXCEPT ![c] = "io"] /\ UNCHANGED ml
-          ELSE /\ h' = [h EXCEPT ![c] = "m"] /\ ml' = [ml EXCEPT ![c] = NM(Op(c))] /\ UNCHANGED <<rsp, rspv>>
-       /\ serving' = sv /\ permits' = pm
-  ELSE IF eof[c]
-  THEN \* transport.close(); semaphore.release(); next: the state lock
-       /\ serving' = sv \ {c} /\ permits' = pm + (IF mx > 0 THEN 1 ELSE 0)
-       /\ h' = [h EXCEPT ![c] = "fin"] /\ UNCHANGED <<req, rsp, rspv, ml>>
-  ELSE /\ h' = [h EXCEPT ![c] = "io"] /\ serving' = sv /\ permits' = pm /\ UNCHANGED <<req, rsp, rspv, ml>>
+\* RpcServer.serve: consume what the client has written until a method body is entered, nothing is left (park in recv)
+\* or the client has closed.  st = [q, r, mid, hs, fl (the stray mark this connection sees), pc, ml, cur, end].
+RECURSIVE HRun(_, _)
+HRun(c, st) ==
+  IF st.mid                             \* in the middle of a stream without a method key: its EOS is still to come
+  THEN IF st.q = <<>> THEN [st EXCEPT !.pc = "io"]
+       ELSE HRun(c, [st EXCEPT !.q = Tail(@), !.mid = FALSE, !.r = IF st.hs THEN @ ELSE Append(@, <<"e", 0>>)])
+  ELSE IF st.q = <<>>
+  THEN IF eof[c] THEN [st EXCEPT !.pc = "fin", !.end = TRUE] ELSE [st EXCEPT !.pc = "io"]
+  ELSE LET x == Head(st.q) IN
+       CASE x.t = "R" ->
+              LET op == script[c][x.i]  f == IF Enters(op) THEN FALSE ELSE st.fl IN      \* serve_one entry clears the mark
+              IF NM(op) = 0 THEN HRun(c, [st EXCEPT !.q = Tail(@), !.fl = f, !.r = Append(@, <<"c", 0>>)])
+              ELSE [st EXCEPT !.q = Tail(@), !.fl = f, !.pc = "m", !.ml = NM(op), !.cur = x.i]
+         [] x.t = "SP" -> HRun(c, [st EXCEPT !.q = Tail(@), !.hs = st.fl, !.fl = FALSE, !.mid = TRUE])
+         [] OTHER -> HRun(c, [st EXCEPT !.q = Tail(@), !.fl = FALSE, !.r = IF st.fl THEN @ ELSE Append(@, <<"e", 0>>)])
+HState(c) == [q |-> c2s[c], r |-> s2c[c], mid |-> mid[c], hs |-> hs[c], fl |-> flag[Slot(c)], pc |-> h[c], ml |-> ml[c],
+              cur |-> cur[c], end |-> FALSE]
+HSet(c, st, sv, pm) ==
+  /\ c2s' = [c2s EXCEPT ![c] = st.q] /\ s2c' = [s2c EXCEPT ![c] = st.r] /\ mid' = [mid EXCEPT ![c] = st.mid]
+  /\ hs' = [hs EXCEPT ![c] = st.hs] /\ flag' = [flag EXCEPT ![Slot(c)] = st.fl] /\ h' = [h EXCEPT ![c] = st.pc]
+  /\ ml' = [ml EXCEPT ![c] = st.ml] /\ cur' = [cur EXCEPT ![c] = st.cur]
+  \* EOF: transport.close(); semaphore.release(); next: the state lock
+  /\ serving' = IF st.end THEN sv \ {c} ELSE sv
+  /\ permits' = IF st.end /\ mx > 0 THEN pm + 1 ELSE pm
+Op(c) == script[c][cur[c]]
 Result(c) ==          \* what the method / process() call that now returns hands back (i = 0-based op number)
-  LET op == Op(c)  i == ip[c] - 1  s == Slot(c) IN
+  LET op == Op(c)  i == cur[c] - 1  s == Slot(c) IN
   CASE op = "u" -> [v |-> <<"r", Tag(c) * 1000 + i>>, k |-> sk, a |-> sa]
     [] op \in {"pt", "t"} -> [v |-> <<"d", Tag(c) * 1000 + sk[s] + 1>>, k |-> [sk EXCEPT ![s] = @ + 1], a |-> sa]
+    [] Rejected(op) -> [v |-> <<"e", Tag(c)>>, k |-> sk, a |-> sa]
     [] OTHER -> [v |-> <<"d", Tag(c) * 1000 + sa[s] + i + 1>>, k |-> sk, a |-> [sa EXCEPT ![s] = @ + i + 1]]
 H(c) ==
   /\ c \in Conns
   /\ CASE h[c] = "start" /\ mx > 0 ->
-            h' = [h EXCEPT ![c] = "sem"] /\ UNCHANGED <<req, rsp, rspv, ml, permits, serving, sk, sa>>
+            h' = [h EXCEPT ![c] = "sem"] /\ UNCHANGED <<c2s, s2c, ml, cur, mid, hs, flag, permits, serving, sk, sa>>
        [] (h[c] = "start" /\ mx = 0) \/ (h[c] = "sem" /\ permits > 0) ->
-            /\ ReadOrPark(c, req, serving \cup {c}, IF mx > 0 THEN permits - 1 ELSE permits)
+            /\ HSet(c, HRun(c, HState(c)), serving \cup {c}, IF mx > 0 THEN permits - 1 ELSE permits)
             /\ UNCHANGED <<sk, sa>>
-       [] h[c] = "io" /\ (req[c] \/ eof[c]) ->
-            ReadOrPark(c, req, serving, permits) /\ UNCHANGED <<sk, sa>>
+       [] h[c] = "io" /\ (c2s[c] # <<>> \/ eof[c]) ->
+            HSet(c, HRun(c, HState(c)), serving, permits) /\ UNCHANGED <<sk, sa>>
        [] h[c] = "m" /\ ml[c] > 1 ->      \* init returned: a fresh state object; the first turn's process() parks next
             /\ ml' = [ml EXCEPT ![c] = @ - 1]
             /\ sk' = IF Op(c) = "pt" THEN [sk EXCEPT ![Slot(c)] = 0] ELSE sk
             /\ sa' = IF Op(c) = "xe" THEN [sa EXCEPT ![Slot(c)] = 0] ELSE sa
-            /\ UNCHANGED <<h, req, rsp, rspv, permits, serving>>
-       [] h[c] = "m" /\ ml[c] = 1 ->      \* the call returns: response written, back to reading (the client is waiting)
-            /\ rsp' = [rsp EXCEPT ![c] = TRUE] /\ rspv' = [rspv EXCEPT ![c] = Result(c).v]
+            /\ UNCHANGED <<h, c2s, s2c, cur, mid, hs, flag, permits, serving>>
+       [] h[c] = "m" /\ ml[c] = 1 ->
+            \* the call returns (or init raises: error stream, and the connection's stray mark is set): response written,
+            \* back to reading
+            LET st == [HState(c) EXCEPT !.r = Append(@, Result(c).v), !.ml = 0,
+                                        !.fl = IF Rejected(Op(c)) THEN TRUE ELSE @] IN
+            /\ HSet(c, HRun(c, st), serving, permits)
             /\ sk' = Result(c).k /\ sa' = Result(c).a
-            /\ h' = [h EXCEPT ![c] = "io"] /\ ml' = [ml EXCEPT ![c] = 0]
-            /\ UNCHANGED <<req, permits, serving>>
-       [] h[c] = "fin" -> h' = [h EXCEPT ![c] = "done"] /\ UNCHANGED <<req, rsp, rspv, ml, permits, serving, sk, sa>>
+       [] h[c] = "fin" -> h' = [h EXCEPT ![c] = "done"] /\ UNCHANGED <<c2s, s2c, ml, cur, mid, hs, flag, permits, serving, sk, sa>>
        [] OTHER -> FALSE
-  /\ UNCHANGED <<script, mx, loop, acc, backlog, closed, cl, ip, eof, obs>>
-HEnabled(c) == \/ h[c] \in {"start", "m", "fin"} \/ (h[c] = "sem" /\ permits > 0) \/ (h[c] = "io" /\ (req[c] \/ eof[c]))
+  /\ UNCHANGED <<script, mx, loop, acc, backlog, closed, cl, ip, pend, eof, obs>>
+HEnabled(c) == \/ h[c] \in {"start", "m", "fin"} \/ (h[c] = "sem" /\ permits > 0)
+               \/ (h[c] = "io" /\ (c2s[c] # <<>> \/ eof[c]))
 
 \* the harness closes the listening socket once every connection has been served to its end
 AllDone == \A c \in Conns : cl[c] = "done" /\ h[c] = "done"
 CloseListener == /\ ~closed /\ AllDone /\ loop = "accept" /\ closed' = TRUE
-                 /\ UNCHANGED <<script, mx, loop, acc, backlog, cl, ip, req, rsp, rspv, eof, h, ml, permits, serving, sk, sa, obs>>
+                 /\ UNCHANGED <<script, mx, loop, acc, backlog, cl, ip, pend, c2s, s2c, eof, h, ml, cur, mid, hs, flag, permits,
+                                serving, sk, sa, obs>>
 
 \* (quantified over a constant range so that TLC labels every step with its thread; C / H check c \in Conns themselves)
 Next == L \/ (\E c \in 1..3 : C(c)) \/ (\E c \in 1..3 : H(c)) \/ CloseListener
@@ -136,8 +194,10 @@ Spec == Init /\ [][Next]_vars
 RECURSIVE SoloFrom(_, _, _, _, _)
 SoloFrom(s, c, i, k, a) ==
   IF i > Len(s) THEN <<>>
-  ELSE LET op == s[i] IN
+  ELSE LET op == s[i]  rej == i > 1 /\ Rejected(s[i - 1]) IN
        CASE op = "u" -> <<<<"r", Tag(c) * 1000 + (i - 1)>>>> \o SoloFrom(s, c, i + 1, k, a)
+         [] Rejected(op) -> SoloFrom(s, c, i + 1, k, a)                       \* nothing is read when the stream is opened
+         [] rej /\ op \in {"t", "e"} -> <<<<"e", Tag(c)>>>> \o SoloFrom(s, c, i + 1, k, a)
          [] op = "pt" -> <<<<"d", Tag(c) * 1000 + 1>>>> \o SoloFrom(s, c, i + 1, 1, a)
          [] op = "t" -> <<<<"d", Tag(c) * 1000 + k + 1>>>> \o SoloFrom(s, c, i + 1, k + 1, a)
          [] op = "xe" -> <<<<"d", Tag(c) * 1000 + i>>>> \o SoloFrom(s, c, i + 1, k, i)
@@ -147,13 +207,15 @@ Solo(c) == SoloFrom(script[c], c, 1, 0, 0)
 IsPrefix(p, s) == Len(p) <= Len(s) /\ \A i \in 1..Len(p) : p[i] = s[i]
 \* never more connections served at once than max_connections
 ConcLimit == mx > 0 => Cardinality(serving) <= mx
-\* each connection observes exactly what it would observe alone (stream states never shared)
+\* each connection observes exactly what it would observe alone (stream states and serve-loop bookkeeping never shared)
 IsoHistory == \A c \in Conns : IsPrefix(obs[c], Solo(c))
 \* a connection beyond the limit waits and is served later: nothing is ever stuck or dropped
 NoStarvation == (~LEnabled /\ (\A c \in Conns : ~CEnabled(c) /\ ~HEnabled(c)) /\ ~closed)
                    => (\A c \in Conns : cl[c] = "done" /\ h[c] = "done" /\ obs[c] = Solo(c))
 Finished == loop = "done" => \A c \in Conns : obs[c] = Solo(c)
 PermitsSane == permits >= 0 /\ (mx > 0 => permits + Cardinality(serving) = mx)
+\* every response is consumed by the call it answers: nothing is left over on either channel
+NoLeftover == AllDone => \A c \in Conns : s2c[c] = <<>> /\ c2s[c] = <<>>
 Clauses == {x \in {"ConcLimit", "IsoHistory", "NoStarvation"} :
               \/ (x = "ConcLimit" /\ ~ConcLimit) \/ (x = "IsoHistory" /\ ~IsoHistory) \/ (x = "NoStarvation" /\ ~NoStarvation)}
 ===================================================================================
